@@ -270,8 +270,6 @@ void eb_param_set(int param) {
 		bn_new(r);
 		bn_new(h);
 
-		core_get()->eb_id = 0;
-
 		switch (param) {
 #if defined(EB_PLAIN) && FB_POLYN == 163
 			case NIST_B163:
